@@ -32,8 +32,48 @@ def handleEv (op : String) (a : Json) : Except String Json := do
     let gs ← (← fldArr out "groups").mapM getNatList
     return boolJ (holdsEv ev A gs (← getPairs (← fld out "calls")))
 
+def getTag (j : Json) : Except String Tag := do
+  match ← getNatList j with
+  | [u, c] => return (u, c)
+  | _ => .error "expected [uuid number, content key]"
+
+def tagJ (t : Tag) : Json := natsJ [t.1, t.2]
+
+def getStep (j : Json) : Except String HStep := do
+  if let some e := fldOpt j "edit" then
+    match ← getNatList e with
+    | [o, c] => return .edit o c
+    | _ => .error "edit: expected [object, content]"
+  else if let some p := fldOpt j "param" then return .setParam (← p.getNat?)
+  else return .call (← getNatList (← fld j "call"))
+
+/-- histories: `R` is one 0/1 matrix on content keys per parameter value of the callable -/
+def handleHist (op : String) (a : Json) : Except String Json := do
+  let tabs ← (← fldArr a "R").mapM fun m => do (← getArr m).mapM getNatList
+  let t : Array (Array (Array Nat)) := (tabs.map fun m => (m.map List.toArray).toArray).toArray
+  let R : Nat → Nat → Nat → Bool := fun p x y => (((t.getD p #[]).getD x #[]).getD y 0) != 0
+  let uu ← getNatList (← fld a "uuid")
+  let w : World := ⟨← getNatList (← fld a "content0"), ← fldNat a "param0"⟩
+  let steps ← (← fldArr a "steps").mapM getStep
+  match op with
+  | "history" =>
+    return arrJ ((callWorlds w steps).map fun c =>
+      Json.mkObj [("groups", arrJ ((callOut R uu c.1 c.2).map fun g => arrJ (g.map tagJ))),
+                  ("calls", arrJ ((callsTagged (tagsOf uu c.1 c.2)).map fun q => arrJ [tagJ q.1, tagJ q.2]))])
+  | _ =>
+    let outs ← (← fldArr a "outs").mapM fun o => do
+      let gs ← (← fldArr o "groups").mapM fun g => do (← getArr g).mapM getTag
+      let cs ← (← fldArr o "calls").mapM fun q => do
+        match ← getArr q with
+        | [x, y] => return (← getTag x, ← getTag y)
+        | _ => .error "expected a pair of tags"
+      return (gs, cs)
+    return Json.mkObj [("calls", natJ (callWorlds w steps).length),
+                       ("verdicts", arrJ ((checkHist R uu w steps outs).map boolJ))]
+
 def handle (op : String) (a : Json) : Except String Json := do
   if op == "group_ev" || op == "holds_ev" then return ← handleEv op a
+  if op == "history" || op == "check_history" then return ← handleHist op a
   let n ← fldNat a "n"
   let adj ← getAdj (← fld a "adj")
   match op with
